@@ -165,7 +165,7 @@ def run_program(chunks, body, prog, cfg):
 
 
 def programs(L):
-    for n in range(1, L + 1):
+    for n in range(0, L + 1):
         yield from itertools.product(OPS, repeat=n)
 
 
@@ -184,7 +184,7 @@ def _task(t):
             for prog in programs(L):
                 evals += 1
                 # non-trivial: the program does not simply read everything in one call
-                if not (len(prog) == 1 and prog[0][0] == "read" and prog[0][1] in (None, -1)):
+                if not (len(prog) == 1 and prog[0][0] == "read" and prog[0][1] in (None, -1)) and prog:
                     nontriv += 1
                 r = run_program(chunks, body, prog, cfg)
                 if r is not None:
@@ -201,9 +201,18 @@ def run(ctx):
     L = 3 if ctx.thorough else 2
     B = bodies(ctx.thorough)
     tasks = [(n, b, L) for n, b in B]
+    # bodies beyond the 8192-byte discard block of Parser.__next__: programs of length <= 1
+    big = []
+    for n in (8191, 8192, 8193, 16384, 16385, 20000):
+        base = bytearray(bytes((65 + i % 26) for i in range(n)))
+        base[100] = 10
+        base[8192 % n] = 10
+        big.append(("%d/big" % n, bytes(base)))
+    B = B + big
+    tasks += [(n, b, 1) for n, b in big]
     if ctx.thorough:
         # depth 3 is heavy on long bodies: keep depth 3 for bodies up to 1025 bytes, depth 2 above
-        tasks = [(n, b, 3 if len(b) <= 1025 else 2) for n, b in B]
+        tasks = [(n, b, 3 if len(b) <= 1025 else (2 if len(b) < 8000 else 1)) for n, b in B]
     random.Random(ctx.seed).shuffle(tasks)
     res = par.pmap(_task, tasks)
     res.sort(key=lambda r: r["body"])
